@@ -20,7 +20,7 @@ ASSUMPTIONS = [
     "solves are compared with the fresh op only on problems that are well posed by construction (every variable boxed on both sides, at most one equality constraint, no constant-only equality): solvers.lp documents the rank conditions and an unbounded or rank-deficient problem has no unique outcome",
     "status 'unknown' or the documented rank-deficiency ValueError of solvers.lp on only one side of a solve comparison is counted, not judged",
 ]
-STEPS = ["add", "del-member", "del-nonmember", "add-twice", "objective", "objective-inplace", "solve"]
+STEPS = ["add", "del-member", "del-nonmember", "add-twice", "objective", "objective-inplace", "objective-rejected", "solve"]
 REQUIRED_COUNTERS = ["step." + s for s in STEPS] + [
     "check.variables", "check.lists", "check.copies", "check.solve-vs-fresh", "check.values-after-solve", "solve.optimal",
     "mech.del-last-user-of-variable", "mech.del-shared-variable", "mech.del-multi-variable-constraint",
@@ -250,7 +250,7 @@ def run(ctx):
         for s in range(nsteps):
             members = list(model.cons)
             nonmembers = [i for i, (d, _, _) in enumerate(pool) if not any(d is m for m in members)]
-            kind = rng.choice(["add"] * 7 + ["del-member"] * 5 + ["del-nonmember"] * 2 + ["add-twice"] * 1 + ["objective"] * 3 + ["objective-inplace"] * 2 + ["solve"] * 4)
+            kind = rng.choice(["add"] * 7 + ["del-member"] * 5 + ["del-nonmember"] * 2 + ["add-twice"] * 1 + ["objective"] * 3 + ["objective-inplace"] * 2 + ["objective-rejected"] * 1 + ["solve"] * 4)
             if kind == "add" and not nonmembers:
                 kind = "del-member"
             if kind in ("del-member", "add-twice") and not members:
@@ -310,6 +310,18 @@ def run(ctx):
                     if any(users(v) == 0 for v in old) or any(users(v) == 0 for v in as_function(objs[j][0]).variables()):
                         mechs.add("objective-only"); ctx.count("mech.objective-only-variable")
                     p.objective = objs[j][0]; model.obj = objs[j][0]
+                elif kind == "objective-rejected":
+                    # an objective the op must refuse (not a scalar convex function): TypeError, and nothing else changes
+                    longv = [v for v in vs if len(v) > 1]
+                    cand = [("a string", "abc")] + ([("a vector variable", longv[0]), ("a vector function", 2.0 * longv[0] + 1.0)] if longv else []) + \
+                           [("a concave function", -abs(vs[0][0]))]
+                    label_, bad_ = rng.choice(cand)
+                    hist.append("p.objective = <%s>  # must be refused" % label_)
+                    try:
+                        p.objective = bad_
+                        c.check(); c.fail("objective-rejected:accepted", "op.objective accepted %s" % label_); return
+                    except TypeError:
+                        ctx.count("mech.objective-assignment-refused")
                 elif kind == "objective-inplace":
                     # p.objective += t / -= t: Python reads the attribute, applies the in-place operator to what it got
                     # (possibly mutating the stored function) and assigns the result back through the setter
@@ -407,7 +419,7 @@ def run(ctx):
                 c.fail(key, "step %d (%s) raised %s: %s" % (s, hist[-1], type(e).__name__, e))
                 return
             step = {"add": "addconstraint", "del-member": "delconstraint", "del-nonmember": "delconstraint-nonmember",
-                    "add-twice": "addconstraint-twice", "objective": "objective-assignment", "objective-inplace": "objective-inplace", "solve": "solve"}[kind]
+                    "add-twice": "addconstraint-twice", "objective": "objective-assignment", "objective-inplace": "objective-inplace", "objective-rejected": "objective-rejected", "solve": "solve"}[kind]
             nf = len(c.failed)
             if not compare(step):
                 # name the mechanism of the two known-by-reading shapes (diagnostic only)
